@@ -47,11 +47,24 @@ PROPS['C18'] = {
     'design_ref': 'DESIGN.md section 5 C18',
 }
 
+PROPS['C16'] = {
+    'units': ['rename'],
+    'title': 'rename_all case conversion agrees with serde_derive',
+    'technique': 'Verus contracts on the six RenameExt methods, rename_all_to_case and get_ident (extracted verbatim) against a Seq<char> '
+                 'transcription of serde_derive 1.0.214 case.rs; known-finding classes carved out as spec predicates',
+    'level_text': 'For every string (any length, every Unicode scalar) and each of the eight rules, in field and in variant position, the name '
+                  'typeshare computes equals serde_derive\'s outside the declared known-finding classes (kf_field / kf_variant), an unknown rule '
+                  'leaves the name unchanged, serde(rename) overrides the rule; none of these functions can panic and every loop terminates.',
+    'level_note': 'Assumed: std string/char contracts (spec/chars.rs), Unicode-on-ASCII axioms, two outlined expressions, serde_rename as a pure '
+                  'stub. Inside a known-finding class the contract is silent (findings listed in known_findings.json, each replayed on the real code every run).',
+    'design_ref': 'DESIGN.md section 5 C16',
+}
+
 NOT_APPLICABLE = {k: NA_TEXT for k in ['C01', 'C02', 'C04', 'C05', 'C08', 'C09', 'C10', 'C12', 'C14', 'C15', 'C19']}
 NOT_APPLICABLE.update({k: 'unit not built yet in this round (see DESIGN.md build order)' for k in
-                       ['C03', 'C06', 'C07', 'C13', 'C16', 'C17', 'C20']})
+                       ['C03', 'C06', 'C07', 'C13', 'C17', 'C20']})
 
-ALL_UNITS = ['topo']
+ALL_UNITS = ['topo', 'rename']
 ALL_KANI = ['kint']
 
 
@@ -191,8 +204,12 @@ def known_findings(pid, known, workdir, seed):
     for kf in known.get('findings', []):
         if kf.get('property') != pid or kf.get('status') != 'open':
             continue
-        mod = importlib.import_module(kf['replay_module'])
-        still = mod.replay_known(kf, workdir)
+        mod = importlib.import_module(kf.get('replay_module', 'kf_replay'))
+        try:
+            still = mod.replay_known(kf, workdir)
+        except Exception as ex:
+            lines.append('note: known finding %s could not be replayed (%s)' % (kf['id'], str(ex)[:200]))
+            continue
         if still:
             lines.append('KNOWN-FINDING: property=%s %s %s' % (pid, kf['id'], kf['what']))
     return lines, []
